@@ -14,7 +14,7 @@
 import ast
 from typing import List, Tuple, get_args
 
-from sympy import Symbol
+from sympy import Symbol, sympify
 from sympy.logic import ITE, And, Not, Or, Xor, false, true
 
 from ..boolquant import QuantumBooleanGate
@@ -384,19 +384,15 @@ def translate_expression(expr, env: Env) -> TExp:  # noqa: C901
             subs = {}
             for a, fa in zip(args, def_f[1]):
                 if isinstance(a[1], List):
-                    for i in range(len(a[1])):  # type: ignore
-                        index = ".".join(a[1][i].name.split(".")[1:])  # type: ignore
-                        if index == "":
-                            index = f"{i}"
-
-                        subs[f"{fa.name}.{index}"] = a[1][i]  # type: ignore
+                    for fbit, abit in zip(fa.bitvec, a[1]):  # type: ignore
+                        subs[Symbol(fbit)] = sympify(abit)
 
                 else:
-                    subs[fa.name] = a[1]
+                    subs[Symbol(fa.bitvec[0])] = sympify(a[1])
 
             n_exps = []
             for s, e in def_f[3]:
-                n_exps.append((s, e.subs(subs, simultaneus=True)))
+                n_exps.append((s, e.xreplace(subs)))
 
             _ret = list(map(lambda se: se[1], n_exps))
 
